@@ -687,6 +687,9 @@ func (in *Interp) store(lhs ast.Expr, v Val, st *State) {
 			}
 		}
 		st.env[o] = v
+		if in.Hooks.Store != nil {
+			in.Hooks.Store(st, o, v)
+		}
 	case *ast.SelectorExpr:
 		for _, b := range in.eval(x.X, st) {
 			base := b.v
